@@ -16,10 +16,19 @@ def _c(a):
     return np.array(a, dtype=float, copy=True)
 
 
+def _nlog(fl):
+    """number of truly logged rows: the larger of the two row counters the logger keeps (Xn: last filled row,
+    X_max_idx: the prefix the optimiser's consumers read); the observer must not trust the narrower view"""
+    try:
+        return int(min(max(int(fl.Xn), int(fl.X_max_idx)) + 1, fl.X.shape[0]))
+    except Exception:
+        return int(fl.X_max_idx + 1)
+
+
 def _match_rows(X, y, fl):
     """For each training row find a log index with identical input and value.
     Returns (list of indices or -1, log X, log Y, log S)."""
-    n = fl.X_max_idx + 1
+    n = _nlog(fl)
     LX = fl.X[:n]
     LY = fl.Y[:n].ravel()
     idx = {}
@@ -64,7 +73,7 @@ def _train_summary(rec, gp, fl, center, len_scale, site, specified):
         if s2 is None or s2.size != y.size:
             s2_len_ok = False
         else:
-            S = fl.S[: fl.X_max_idx + 1].ravel()
+            S = fl.S[: _nlog(fl)].ravel()
             for i, r in enumerate(rows):
                 if r >= 0:
                     want = S[r] ** 2
@@ -169,7 +178,7 @@ def install(rec, BB, ES, SH, GT, gpyreg):
                 gp = r[0]
                 s = _train_summary(rec, gp, function_logger, None, None, "init", specified())
                 fl = function_logger
-                s["n_logged"] = int(fl.X_max_idx + 1)
+                s["n_logged"] = _nlog(fl)
                 s["all_logged_used"] = bool(s["ntrain"] == int(np.sum(fl.X_flag)))
                 rec.emit("GPTrainSet", **s)
             except Exception as e:
@@ -188,7 +197,7 @@ def install(rec, BB, ES, SH, GT, gpyreg):
             r = orig(function_logger, u, gp, options, optim_state)
             try:
                 fl = function_logger
-                n = fl.X_max_idx + 1
+                n = _nlog(fl)
                 LX = fl.X[:n]
                 uu = np.asarray(u, dtype=float).reshape(1, -1)
                 d2 = np.sum(((LX - uu) / ls_c) ** 2, axis=1)
